@@ -62,19 +62,21 @@ structure OptWrite where
   rhs : String
   deriving DecidableEq, Repr
 
-/-- the post-parse assignments the models account for: (command, variable) ↦ model function -/
-def modelledWrites : List ((String × String) × String) := [
-  (("gotree", "seed"), "PreRun.seedOf"),
-  (("gotree compare trees", "rootCpus"), "PreRun.clampThreads"),
-  (("gotree annotate", "annotateCompTreeFile"), "Glue.annotateSource"),
-  (("gotree comment clear", "edgecomments"), "Glue.commentTargets"),
-  (("gotree comment clear", "nodecomments"), "Glue.commentTargets"),
-  (("gotree comment transfer", "edgecomments"), "Glue.commentTargets"),
-  (("gotree comment transfer", "nodecomments"), "Glue.commentTargets"),
-  (("gotree rename", "autorenamelength"), "Glue.autoLength"),
-  (("gotree generate topologies", "generateNbTips"), "Glue.topologiesNbTips")]
+/-- the post-parse assignments the models account for: (command, variable, right-hand side as the
+    source spells it) ↦ model function.  The right-hand side is part of the key: a SECOND assignment to
+    the same variable in the same command is not covered by the model of the first. -/
+def modelledWrites : List ((String × String × String) × String) := [
+  (("gotree", "seed", "= time.Now().UTC().UnixNano()"), "PreRun.seedOf"),
+  (("gotree compare trees", "rootCpus", "= maxcpus"), "PreRun.clampThreads"),
+  (("gotree annotate", "annotateCompTreeFile", "= \"stdin\""), "Glue.annotateSource"),
+  (("gotree comment clear", "edgecomments", "= true"), "Glue.commentTargets"),
+  (("gotree comment clear", "nodecomments", "= true"), "Glue.commentTargets"),
+  (("gotree comment transfer", "edgecomments", "= true"), "Glue.commentTargets"),
+  (("gotree comment transfer", "nodecomments", "= true"), "Glue.commentTargets"),
+  (("gotree rename", "autorenamelength", "= 5"), "Glue.autoLength"),
+  (("gotree generate topologies", "generateNbTips", "= len(tipNames)"), "Glue.topologiesNbTips")]
 
-def isModelled (w : OptWrite) : Bool := modelledWrites.any fun m => m.1 == (w.path, w.var)
+def isModelled (w : OptWrite) : Bool := modelledWrites.any fun m => m.1 == (w.path, w.var, w.rhs)
 
 /-! ### tests of whether an option was GIVEN (table (f), Gen/C19Changed.lean) -/
 
